@@ -340,8 +340,28 @@ pub fn run(args: &Args, rep: &mut Report) {
         }
     }
     let mut reported: std::collections::BTreeSet<String> = Default::default();
+    let mut case_no = 0u64;
     for (label, ops) in todo {
         mark_current(&case_lines(&ops));
+        // one case in eight is registered (and printed) while the calling thread unwinds; replayed and
+        // corpus cases both ways (the second pass of the loop below)
+        case_no += 1;
+        let unwinding = if label.starts_with("gen:") { Rng::new(seed ^ 0xd70b, case_no).chance(12) } else { false };
+        crate::build::BUILD_UNWINDING.store(unwinding, std::sync::atomic::Ordering::SeqCst);
+        if label.starts_with("corpus:") || label.starts_with("replay:") {
+            // the other way first, implementation-side oracles only
+            crate::build::BUILD_UNWINDING.store(true, std::sync::atomic::Ordering::SeqCst);
+            let r2 = eval_case(&ops, None, &pool);
+            crate::build::BUILD_UNWINDING.store(false, std::sync::atomic::Ordering::SeqCst);
+            for (p, what) in &r2.impl_v {
+                if reported.insert(format!("impl:{}:unwinding", p)) {
+                    rep.violate(p, "impl", "", format!("(registered while the calling thread unwinds) {} [{}]", what, label), case_lines(&ops));
+                }
+            }
+        }
+        if unwinding {
+            rep.count("cases_registered_while_the_caller_unwinds");
+        }
         drv.begin_case();
         let res = eval_case(&ops, Some(&mut drv), &pool);
         let kf1 = Op::has_tl_in_batch(&ops, false);
@@ -409,6 +429,7 @@ pub fn run(args: &Args, rep: &mut Report) {
             }
         }
     }
+    crate::build::BUILD_UNWINDING.store(false, std::sync::atomic::Ordering::SeqCst);
     rep.add("driver_requests", drv.requests);
 }
 
